@@ -17,7 +17,7 @@ from pymtl3.passes.rtlir import RTLIRDataType as rdt
 from pymtl3.passes.rtlir import RTLIRType as rt
 
 from ...errors import VerilogTranslationError
-from ...util.utility import make_indent
+from ...util.utility import make_indent, sized_decimal
 from .VBehavioralTranslatorL0 import VBehavioralTranslatorL0
 
 
@@ -288,7 +288,7 @@ class BehavioralRTLIRToVVisitorL1( bir.BehavioralRTLIRNodeVisitor ):
   def visit_Number( s, node ):
     """Return a number in string."""
     nbits = node.Type.get_dtype().get_length()
-    return f"{nbits}'d{int(node.value)}"
+    return sized_decimal( nbits, node.value )
 
   #-----------------------------------------------------------------------
   # visit_Concat
@@ -618,6 +618,9 @@ class BehavioralRTLIRToVVisitorL1( bir.BehavioralRTLIRNodeVisitor ):
 
   def visit_FreeVar( s, node ):
     nbits = node.Type.get_dtype().get_length()
+    if isinstance( node.obj, int ) and node.obj < 0:
+      # The constant is declared in two's complement at its own width
+      return f"{nbits}'( $signed( __const__{node.name} ) )"
     return f"{nbits}'( __const__{node.name} )"
 
   #-----------------------------------------------------------------------
